@@ -203,6 +203,7 @@ func copyBbolt(src, dst string, rewritten map[string][]byte) {
 			if r, ok := rewritten[d.Name()]; ok {
 				data = r
 			}
+			data = diskHooks(d.Name(), data)
 		}
 		writeIfChanged(filepath.Join(dst, rel), data)
 		return nil
@@ -210,7 +211,72 @@ func copyBbolt(src, dst string, rewritten map[string][]byte) {
 	if err != nil {
 		die("copy bbolt: %v", err)
 	}
+	writeIfChanged(filepath.Join(dst, "zz_verif_disk.go"), []byte(verifDiskGo))
 }
+
+// diskHooks routes the copy's file writes, syncs and truncations through
+// hooks a simulation can install per database path (lost / torn writes at a
+// crash point, see harness/sims/dbsim). Without hooks the copy behaves as the
+// original.
+func diskHooks(name string, data []byte) []byte {
+	must := func(old, new string) {
+		if !bytes.Contains(data, []byte(old)) {
+			die("bbolt copy: %s: pattern %q not found", name, old)
+		}
+		data = bytes.Replace(data, []byte(old), []byte(new), -1)
+	}
+	switch name {
+	case "bolt_linux.go":
+		must("\treturn syscall.Fdatasync(int(db.file.Fd()))", "\tif err := verifSync(db); err != nil {\n\t\treturn err\n\t}\n\treturn syscall.Fdatasync(int(db.file.Fd()))")
+	case "db.go":
+		must("db.ops.writeAt = db.file.WriteAt", "db.ops.writeAt = db.file.WriteAt\n\tdb.verifWrapWriteAt()")
+		must("if err := db.file.Truncate(int64(sz)); err != nil {", "verifTruncate(db, int64(sz))\n\t\t\tif err := db.file.Truncate(int64(sz)); err != nil {")
+		must("if err := db.file.Sync(); err != nil {", "if err := verifSync(db); err != nil {\n\t\t\treturn err\n\t\t}\n\t\tif err := db.file.Sync(); err != nil {")
+	}
+	return data
+}
+
+const verifDiskGo = `package bbolt
+
+// Added to the private copy of bbolt at check time (tools/instrument).
+
+// VerifDiskHooks observes, and can fail, the file operations of one database.
+type VerifDiskHooks struct {
+	WriteAt  func(b []byte, off int64) error
+	Sync     func() error
+	Truncate func(size int64)
+}
+
+// VerifDisk maps a database path to its hooks; set before the file is opened.
+var VerifDisk = map[string]*VerifDiskHooks{}
+
+func verifSync(db *DB) error {
+	if h := VerifDisk[db.path]; h != nil && h.Sync != nil {
+		return h.Sync()
+	}
+	return nil
+}
+
+func verifTruncate(db *DB, size int64) {
+	if h := VerifDisk[db.path]; h != nil && h.Truncate != nil {
+		h.Truncate(size)
+	}
+}
+
+func (db *DB) verifWrapWriteAt() {
+	h := VerifDisk[db.path]
+	if h == nil || h.WriteAt == nil {
+		return
+	}
+	real := db.ops.writeAt
+	db.ops.writeAt = func(b []byte, off int64) (int, error) {
+		if err := h.WriteAt(b, off); err != nil {
+			return 0, err
+		}
+		return real(b, off)
+	}
+}
+`
 
 type inst struct {
 	pkg     *packages.Package
